@@ -25,7 +25,7 @@ EXPLANATION = (
     "re-tests that the node heap is empty; (O3) the objective is the number of rolls of the returned plan - count and "
     "plan entry are written together, incumbents and the integral root are scored from the plan's own counts; (O4) "
     "the pricing DP's pattern passes the unscaled width re-check before it is returned; (O5) both two-phase master LPs "
-    "pivot basic artificial variables out between phase 1 and phase 2 (sibling of simplex._phase1). (O6) the bounded master LP lays its bound rows out in the order in which the initial basis labels them. NOT decided: "
+    "pivot basic artificial variables out between phase 1 and phase 2 (sibling of simplex._phase1). (O6) the bounded master LP lays its bound rows out in the order in which the initial basis labels them. (O7) the shared LP engine (entering rule, ratio test, pivot), the pricing DP, the branching variable and the two children, statement group by statement group. NOT decided: "
     "validity of the LP bound in general, quality of FEASIBLE plans."
 )
 
@@ -298,6 +298,22 @@ def run(ctx: Ctx):
             basis_groups.append((n.lineno, {"range(m)": "demand", "range(n_lower)": "art", "range(n_upper)": "slack"}.get(it, it)))
     order_b = [k for _, k in sorted(basis_groups)]
     ctx.ob("C17-O6", "R5 PAIRING", bm, "bound rows are laid out group by group (all lower-bound rows, then all upper-bound rows), in the order in which the initial basis labels them", grouped and layout == ["art", "slack"] and order_b == ["demand", "art", "slack"], f"row groups per loop {kinds_per_loop}, basis groups {order_b}: with interleaved rows a slack is recorded as basic in an artificial's row, the pivot-out works on the wrong rows and the LP point violates a demand", node=row_loops[0] if row_loops else bm.node)
+    # ---- O7 the LP engine, the pricing DP and the branching step, obligation by obligation
+    from .sat_common import _need
+
+    sp_ = ctx.func("utils.pricing", "simplex_phase")
+    _need(ctx, "C17-O7", "R21 search discipline", sp_, "entering column: the first non-basic structural column with a negative reduced cost (Bland); none -> the phase is over", ["enter = -1\n        for j in range(n_orig):\n            if j not in basis_set and tab[-1][j] < -eps:\n                enter = j\n                break", "if enter == -1:\n            return"])
+    _need(ctx, "C17-O7", "R30 ACCUMULATOR-PAIRING", sp_, "leaving row: minimum ratio rhs / entry over the rows with a positive entry, ties broken by the smaller basic index; no such row -> stop", ["leave = -1\n        min_ratio = float('inf')", "if tab[i][enter] > eps:\n                ratio = tab[i][-1] / tab[i][enter]\n                if ratio < min_ratio - eps:\n                    min_ratio = ratio\n                    leave = i\n                elif abs(ratio - min_ratio) <= eps and leave >= 0 and (basis[i] < basis[leave]):\n                    leave = i", "if leave == -1:\n            return"])
+    _need(ctx, "C17-O7", "R16 PAIRED-EFFECTS", sp_, "pivot: the leaving row is scaled by the pivot element, every other row (objective row included) is cleared in the entering column, the basis label and the basis set move together", ["piv = tab[leave][enter]\n        for j in range(n_cols):\n            tab[leave][j] /= piv", "for i in range(n_rows + 1):\n            if i != leave:\n                factor = tab[i][enter]\n                if abs(factor) > eps:\n                    for j in range(n_cols):\n                        tab[i][j] -= factor * tab[leave][j]", "basis_set.discard(basis[leave])\n        basis[leave] = enter\n        basis_set.add(enter)"])
+    kpf = ctx.func("utils.pricing", "knapsack_pricing")
+    _need(ctx, "C17-O7", "R30 ACCUMULATOR-PAIRING", kpf, "pricing DP: a state is extended only from a reachable state, on strict improvement, and value and pattern are updated together (one more copy of item i)", ["dp_val[0] = 0.0", "prev_w = w - size_i\n                if dp_val[prev_w] > -float('inf'):\n                    new_val = dp_val[prev_w] + values[i]\n                    if new_val > dp_val[w] + eps:\n                        dp_val[w] = new_val\n                        dp_pat[w] = list(dp_pat[prev_w])\n                        dp_pat[w][i] += 1", "for _ in range(max_copies[i]):\n            for w in range(cap_int, size_i - 1, -1):"])
+    _need(ctx, "C17-O7", "R30 ACCUMULATOR-PAIRING", kpf, "the best state over all weights is returned with its own pattern", ["if dp_val[w] > best_val + eps:\n            best_val = dp_val[w]\n            best_w = w", "best_pat = dp_pat[best_w] if best_val > eps else [0] * n", "return (tuple(best_pat), best_val)"])
+    mfr = ctx.func("bp", "_most_fractional")
+    _need(ctx, "C17-O7", "R18 table", mfr, "branching variable: the positive entry farthest from an integer; none -> the point is integral", ["if x > eps:\n            frac = abs(x - round(x))\n            if frac > eps and frac > best_frac:\n                best_idx, best_frac = (i, frac)", "if best_idx is not None:\n        return (best_idx, x_vals[best_idx])\n    return (None, None)"])
+    _need(ctx, "C17-O7", "R16 PAIRED-EFFECTS", bnp, "branching creates two children that together cover the node: x <= floor(v) and x >= ceil(v) on the same column, each with the node's own bounds and the node's LP value as bound", ["left_bounds = list(node.column_bounds)\n        left_bounds.append((frac_idx, 0.0, floor(val)))\n        heappush(tree, (lp_obj, counter, _BPNode(lp_obj, tuple(left_bounds), node.depth + 1)))\n        counter += 1", "right_bounds = list(node.column_bounds)\n        right_bounds.append((frac_idx, ceil(val), float('inf')))\n        heappush(tree, (lp_obj, counter, _BPNode(lp_obj, tuple(right_bounds), node.depth + 1)))\n        counter += 1"])
+    _need(ctx, "C17-O7", "R1 STATUS-GUARD", bnp, "a node is skipped only when its bound cannot beat the incumbent; an integral node LP replaces the incumbent only when it is strictly better", ["if node.bound >= best_obj - eps:\n            continue", "if lp_obj == float('inf') or lp_obj >= best_obj - eps:\n            continue", "if obj < best_obj - eps:\n                best_solution = candidate\n                best_obj = obj"])
+    nlp_ = ctx.func("bp", "_solve_node_lp")
+    _need(ctx, "C17-O7", "R16 PAIRED-EFFECTS", nlp_, "a priced column joins the column list and the column set together, and the master is solved again before the node's value is reported", ["columns.append(new_col)\n        column_set.add(new_col)", "x_vals, duals, lp_obj = _solve_bounded_master_lp(columns, demands, col_bounds, eps)\n    return (x_vals, lp_obj, cg_iters, converged)"])
     generic_sweeps(ctx)
 
 
@@ -389,6 +405,16 @@ def _v_progress_stop_keeps_proof(tree):
     M.replace_stmt(g, lambda s: isinstance(s, ast.If) and M.src_has(s.test, "report_progress") and any(isinstance(x, ast.Break) for x in s.body), lambda s: [ast.If(test=s.test, body=[ast.Break()], orelse=[])])
 
 
+def _v_ratio_test_any_sign(tree):
+    g = M.find_func(tree, "simplex_phase")
+    M.replace_expr(g, lambda e: M.src_is(e, "tab[i][enter] > eps"), M.expr("abs(tab[i][enter]) > eps"))
+
+
+def _v_right_child_floor(tree):
+    g = M.find_func(tree, "_branch_and_price")
+    M.replace_expr(g, lambda e: M.src_is(e, "ceil(val)"), M.expr("floor(val)"))
+
+
 def _v_bound_rows_interleaved(tree):
     g = M.find_func(tree, "_solve_bounded_master_lp")
     loops = [n for n in g.body if isinstance(n, ast.For) and M.src_has(n.iter, "col_bounds")]
@@ -424,6 +450,8 @@ VARIANTS = [
     M.Variant("'bounds proven' cleared only after the prune (seed C17-B)", BP, _v_clear_after_prune, "C17-O2"),
     M.Variant("progress stop abandons the popped node without clearing 'bounds proven' (original defect)", BP, _v_progress_stop_keeps_proof, "C17-O2"),
     M.Variant("branching-bound rows written in one interleaved pass while the basis assumes grouped rows (seed C17-C)", BP, _v_bound_rows_interleaved, "C17-O6"),
+    M.Variant("ratio test accepts rows with a negative entry", PRI, _v_ratio_test_any_sign, "C17-O7"),
+    M.Variant("right branch repeats the floor bound", BP, _v_right_child_floor, "C17-O7"),
     M.Variant("twin: reformat cg", CG, _t_reformat, None),
     M.Variant("twin: reformat bp", BP, _t_reformat, None),
     M.Variant("twin: reformat pricing", PRI, _t_reformat, None),
